@@ -17,7 +17,7 @@ def suites(tier):
     if tier == "quick":
         nmax, mmax = 3, 2
     else:
-        nmax, mmax = 5, 3
+        nmax, mmax = 4, 3
     if tier == "quick":
         caps = [(0, 0), (4, 8), (16, 8), (30, 8), (30, 3)]
     else:
